@@ -53,6 +53,37 @@ func (p *smtPrinter) count(t *Term) {
 	}
 }
 
+// sharedIn: the subterms of a quantifier body that contain bound variables and are referenced more than
+// once inside it (nested quantifiers are not entered: they are handled when they are printed), children first.
+func (p *smtPrinter) sharedIn(body *Term) []*Term {
+	cnt := map[*Term]int{}
+	var walk func(t *Term)
+	walk = func(t *Term) {
+		if !t.hasBound || len(t.Args) == 0 {
+			return
+		}
+		if _, named := p.names[t]; named {
+			return
+		}
+		cnt[t]++
+		if cnt[t] > 1 || t.Op == "forall" || t.Op == "exists" {
+			return
+		}
+		for _, a := range t.Args {
+			walk(a)
+		}
+	}
+	walk(body)
+	var out []*Term
+	for t, n := range cnt {
+		if n > 1 && t.Op != "forall" && t.Op != "exists" {
+			out = append(out, t)
+		}
+	}
+	sort.Slice(out, func(i, j int) bool { return out[i].id < out[j].id })
+	return out
+}
+
 func (p *smtPrinter) declExtra(name, decl string) {
 	if _, ok := p.extra[name]; !ok {
 		p.extra[name] = decl
@@ -65,7 +96,7 @@ func (p *smtPrinter) term(t *Term) string {
 		return n
 	}
 	s := p.raw(t)
-	if len(t.Args) > 0 && !t.hasBound && p.refs[t] > 1 && t.Op != "forall" && t.Op != "exists" {
+	if len(t.Args) > 0 && !t.hasBound && p.refs[t] > 1 {
 		n := fmt.Sprintf("t!%d", t.id)
 		p.defs = append(p.defs, fmt.Sprintf("(define-fun %s () %s %s)", n, t.Sort.Name, s))
 		p.names[t] = n
@@ -149,7 +180,26 @@ func (p *smtPrinter) raw(t *Term) string {
 			fmt.Fprintf(&sb, "(%s %s)", sym(b.Name), b.Sort.Name)
 			p.scope[b.Name]++
 		}
-		sb.WriteString(") " + p.term(t.Args[0]) + ")")
+		// subterms with bound variables that occur several times in this body are bound by let
+		// (closed subterms are shared by define-fun; without this, DAG-shaped terms such as the
+		// population-count circuit are printed as exponentially large trees)
+		lets := p.sharedIn(t.Args[0])
+		var names, defs []string
+		for _, l := range lets {
+			d := p.raw(l)
+			n := fmt.Sprintf("l!%d", l.id)
+			p.names[l] = n
+			names = append(names, n)
+			defs = append(defs, d)
+		}
+		body := p.term(t.Args[0])
+		for i := len(lets) - 1; i >= 0; i-- {
+			body = "(let ((" + names[i] + " " + defs[i] + ")) " + body + ")"
+		}
+		for _, l := range lets {
+			delete(p.names, l)
+		}
+		sb.WriteString(") " + body + ")")
 		for _, b := range t.Bound {
 			p.scope[b.Name]--
 		}
